@@ -30,8 +30,9 @@ def _same_class(res, cls):
     return any(v.cls() == cls for v in res.violations)
 
 
-def minimise(prop, plan, cls, budget=300):
-    """ddmin over plan['steps'] then property-specific simplifications; keeps the violation class"""
+def minimise(prop, plan, cls, budget=300, keep_shape=None):
+    """ddmin over plan['steps'] then property-specific simplifications; keeps the violation class (and, for a class
+    that has a known finding, the finding shape: a new failure must not be minimised into the known one)"""
     from .prop import jdump
     tries = [0]
 
@@ -40,9 +41,13 @@ def minimise(prop, plan, cls, budget=300):
             return False
         tries[0] += 1
         try:
-            return _same_class(prop.execute(p), cls)
+            r = prop.execute(p)
         except Exception:
             return False
+        for v in r.violations:
+            if v.cls() == cls and (keep_shape is None or prop.finding_shape(p, v) == keep_shape):
+                return True
+        return False
 
     cur = json.loads(jdump(plan))
     steps = cur.get("steps")
@@ -89,6 +94,7 @@ def worker_main(a):
                events=0, shapes=set(), nontrivial=0, violations=[], digests={}, samples=[], cover=collections.Counter(),
                inconclusive=collections.Counter(), selfcheck_mismatch=[], harness_errors=[], stopped_early=False)
     seen_cls = collections.Counter()
+    known_classes = {(k.get("clause"), k.get("kind"), k.get("site")) for k in read_known()[0] if k.get("property") == prop.pid}
 
     def one(plan, idx, tag):
         try:
@@ -113,8 +119,9 @@ def worker_main(a):
         for v in res.violations[:1]:
             cls = v.cls()
             seen_cls[cls] += 1
-            if seen_cls[cls] <= 2 and len(out["violations"]) < 6:
-                mplan = minimise(prop, plan, cls)
+            keyc = tuple(str(x) for x in cls)
+            if (seen_cls[cls] <= 2 and len(out["violations"]) < 8) or (keyc in known_classes and seen_cls[cls] <= 40):
+                mplan = minimise(prop, plan, cls, keep_shape=prop.finding_shape(plan, v) if keyc in known_classes else None)
                 try:
                     mres = prop.execute(mplan)
                     mv = next((x for x in mres.violations if x.cls() == cls), None)
@@ -309,48 +316,61 @@ def parent_main(a):
                 if digests[idx] != dg:
                     harness_fail.append(f"HARNESS nondeterminism: run {idx} digest {digests[idx]} vs {dg} in a fresh interpreter")
 
-    # confirm each reported violation by replaying it in a fresh interpreter
+    # confirm reported violations by replaying them in a fresh interpreter: per violation class one VIOLATION line
+    # (smallest replay), per matching known finding one KNOWN-FINDING line
     known, fixed = read_known()
     lines = []
     exit_code = 0
     nviol = 0
     reported_known = set()
-    # one report per violation class and finding shape (the smallest replay of each); the rest are counted
-    grouped = {}
-    for v in agg["violations"]:
-        key = (tuple(v["cls"]), v.get("shape"))
-        g = grouped.get(key)
-        if g is None:
-            grouped[key] = dict(v)
-        else:
-            g["count"] += v["count"]
-            if os.path.getsize(v["path"]) < os.path.getsize(g["path"]):
-                g["path"], g["detail"] = v["path"], v["detail"]
-    for v in grouped.values():
-        path = v["path"]
+
+    def confirm(path):
         rp = subprocess.run([sys.executable, "-u", "-m", "ssesim", pid, "--replay", path], env=env, cwd=VERIF,
-                            capture_output=True, timeout=600)
+                            capture_output=True, timeout=900)
         text = rp.stdout.decode(errors="replace")
         try:
             rep = json.loads(text[:text.rindex("}") + 1])
         except Exception:
             rep = {}
-        if rp.returncode != 1 or not rep.get("reproduces"):
-            harness_fail.append(f"replay of {path} did not reproduce (exit {rp.returncode}): {text[-600:]} {rp.stderr.decode(errors='replace')[-600:]}")
-            continue
-        with open(path) as f:
+        if rp.returncode == 1 and rep.get("reproduces"):
+            return None
+        return f"replay of {path} did not reproduce (exit {rp.returncode}): {text[-500:]} {rp.stderr.decode(errors='replace')[-500:]}"
+
+    by_cls = {}
+    for v in agg["violations"]:
+        with open(v["path"]) as f:
             rec = json.load(f)
-        k = match_known(known, pid, rec)
-        if k is not None:
+        v["known"] = match_known(known, pid, rec)
+        by_cls.setdefault(tuple(v["cls"]), []).append(v)
+    for cls, entries in sorted(by_cls.items(), key=lambda kv: str(kv[0])):
+        others = sorted((v for v in entries if v["known"] is None), key=lambda v: os.path.getsize(v["path"]))
+        for v in entries:
+            k = v["known"]
+            if k is None:
+                continue
             key = (k.get("clause"), k.get("kind"), k.get("site"), k.get("shape"))
-            if key not in reported_known:
-                reported_known.add(key)
-                lines.append(f"KNOWN-FINDING: property={pid} {k['prose']} [clause={k.get('clause')} kind={k.get('kind')} site={k.get('site')} shape={k.get('shape')}] x{v['count']}")
-            continue
-        nviol += v["count"]
-        exit_code = 1
-        lines.append(f"VIOLATION property={pid} replay={path}")
-        lines.append(f"  class={v['cls']} count={v['count']} {v['detail']}")
+            if key in reported_known:
+                continue
+            err = confirm(v["path"])
+            if err:
+                harness_fail.append(err)
+                continue
+            reported_known.add(key)
+            lines.append(f"KNOWN-FINDING: property={pid} {k['prose']} [clause={k.get('clause')} kind={k.get('kind')} site={k.get('site')} shape={k.get('shape')}]")
+        if others:
+            errs = []
+            for v in others[:3]:
+                err = confirm(v["path"])
+                if err is None:
+                    cnt = sum(x["count"] for x in others)
+                    nviol += cnt
+                    exit_code = 1
+                    lines.append(f"VIOLATION property={pid} replay={v['path']}")
+                    lines.append(f"  class={list(cls)} occurrences={cnt} {v['detail']}")
+                    break
+                errs.append(err)
+            else:
+                harness_fail.extend(errs)
 
     wall = time.time() - t0
     total = agg["runs"] + agg["enum_runs"]
